@@ -60,6 +60,8 @@ class Execution:
     """One controlled execution of `bodies` (callables) following `prefix` of choices, then the default (stay on the
     running thread; at a thread's end continue with the lowest unfinished id)."""
 
+    EXTRA = ('numpy/lib/npyio.py', 'numpy/lib/_npyio_impl.py')     # the table loader fills its cache entry from inside NpzFile
+
     def __init__(self, bodies, prefix, libdir, only=None):
         self.bodies = bodies
         self.prefix = list(prefix)
@@ -81,6 +83,8 @@ class Execution:
         fn = frame.f_code.co_filename
         if fn.startswith(self.lib) or os.path.realpath(fn).startswith(self.lib):
             return self._local_trace
+        if self.only is None and fn.endswith(self.EXTRA):
+            return self._local_trace          # lines of numpy's .npz reader, reached while a library frame loads a table
         return None
 
     def _local_trace(self, frame, event, arg):
